@@ -18,6 +18,7 @@ import pyerrors as pe
 
 from harness import gen, fitgen
 from harness.jsonsafe import rat, ratx
+from harness.frames import snap, frame_event
 from harness.pe_project import project_obs
 
 RULE = ('cases = (model family x ensemble structure x priors x correlation mode x gradient mode) for least_squares, (family x x-error size) for '
@@ -68,6 +69,7 @@ def make_case(rng, i, ctx):
         if np.linalg.cond(corr) > 1e6:
             return None
         L = pe.obs.invert_corr_cov_cholesky(corr, np.diag(1 / np.array([o.dvalue for o in ys])))
+    before = snap(ys)
     try:
         res = _quiet(lambda: pe.fits.least_squares(x, ys, f, **kw))
     except Exception as e:  # noqa: BLE001
@@ -89,6 +91,8 @@ def make_case(rng, i, ctx):
     cid = 'nl-%04d-%s-%s-%s-%s%s' % (i, name, kind, pri_form, corr_mode, '-num' if numgrad else '')
     cases = [{'id': cid, 'ev': 'fit', 'mode': 'fit', 'n': n, 'linear': False, 'method': 'Levenberg-Marquardt', 'numgrad': numgrad, 'exprs': [expr],
               'points': points, 'y': [project_obs(o) for o in ys], 'W': W, 'priors': pri, 'res': rec}]
+    if i % 2 == 0:
+        cases.append(frame_event(cid + '-frame', 'least_squares leaves the data observables as they were', before, ys))
     ctx.nontrivial.add((name, kind, pri_form, corr_mode, numgrad))
     # shift one datum and re-fit (independent data: the sensitivity dp/dy_k is the ratio of fluctuations on the ensemble of point k)
     if kind == 'independent' and priors is None and not numgrad and rng.random() < 0.7:
@@ -148,7 +152,10 @@ def make_tls(rng, i, ctx):
             a_ = rng.normal(size=(nall, nall)) * 0.05
             sd = np.concatenate(([2.0 * o.dvalue for o in ys], [3.0 * o.dvalue for row in xo for o in row]))
             kwx = {'expected_chisquare': True, 'covariance': np.diag(sd) @ (np.eye(nall) + a_ @ a_.T) @ np.diag(sd)}
-        res = _quiet(lambda: pe.fits.total_least_squares(xarg, ys, f, silent=True, initial_guess=[p * float(rng.uniform(0.95, 1.05)) for p in ptrue], **kwx))
+        ig = [p * float(rng.uniform(0.95, 1.05)) for p in ptrue]
+        before_t = snap([xarg, ys])
+        res = _quiet(lambda: pe.fits.total_least_squares(xarg, ys, f, silent=True, initial_guess=ig, **kwx))
+        tls_frame = frame_event('tls-%04d-frame' % i, 'total_least_squares leaves the observables it was given as they were', before_t, [xarg, ys])
     except Exception as e:  # noqa: BLE001
         if 'did not converge' in str(e):
             return 'discard'
@@ -178,6 +185,7 @@ def make_tls(rng, i, ctx):
             if 'did not converge' in str(e):
                 return 'discard'
             cases.append({'id': cid, 'ev': 'same', 'what': 'tls vs ols', 'rtol': '1/100000', 'a': {'k': 'ok', 'p': []}, 'b': {'k': 'exc', 't': type(e).__name__}})
+    cases.append(tls_frame)
     ctx.nontrivial.add(('tls', name, negligible))
     return cases
 
